@@ -7,7 +7,7 @@ using namespace vf;
 
 struct Sig { std::vector<Reader> readers; int outcome = 0; /* 0 ok, 1 fails silently, 2 own error then fails, 3 own error then ok */ int ownCode = -221; };
 struct PUnit { int entry = 0; std::vector<Datum> items; std::vector<std::string> seps; std::string lead; int malformedAt = -1; std::string malformed; bool trailingComma = false; };
-struct PCase { std::vector<Sig> sigs; std::vector<PUnit> units; std::string text; bool tightBuffer = false; int fullQueue = 0; /* > 0: queue of that size, already full when the message arrives */ };
+struct PCase { std::vector<Sig> sigs; std::vector<PUnit> units; std::string text; bool tightBuffer = false; bool decoy = false; int fullQueue = 0; /* > 0: queue of that size, already full when the message arrives */ };
 
 struct Compat { int code = 0; int alt = 0; std::string value; };   // code 0 = delivered; value "?" = delivered but not compared
 
@@ -214,7 +214,8 @@ static PCase decode(Src &s) {
     for (size_t u = 0; u < c.units.size(); u++) c.text += (u ? ";" : "") + unitText(c.units[u], fmt(":CMD%d", c.units[u].entry));
     c.text += s.pick(std::vector<std::string>{"\n", "\r\n"});
     c.tightBuffer = s.coin();
-    if (s.prob(1, 5)) c.fullQueue = (int) s.range(1, 3);     // the controller has not drained the queue: every error of the message overflows
+    if (s.prob(1, 5)) c.fullQueue = (int) s.range(1, 3);
+    c.decoy = s.prob(1, 4);          // a second instrument with another unit table is fed the same bytes first (fixture.hpp)     // the controller has not drained the queue: every error of the message overflows
     return c;
 }
 
@@ -239,6 +240,7 @@ static std::string runCase(const PCase &c, bool *nt = nullptr, std::vector<std::
         k.cmds.push_back(cmd);
     }
     if (c.fullQueue) k.queueLen = c.fullQueue;
+    k.decoy = c.decoy;
     Inst I(k);
     if (c.fullQueue) {
         // which errors a unit raises, whether its handler runs and what the input call returns do not depend on how many
@@ -297,6 +299,7 @@ static std::string body(Src &s, Ev &ev) {
     std::sort(labels.begin(), labels.end()); labels.erase(std::unique(labels.begin(), labels.end()), labels.end());
     for (auto &l : labels) ev.label(l);
     if (c.fullQueue) ev.label("queue-full-before-message");
+    if (c.decoy) ev.label("with-second-instrument-interleaved");
     if (nt) { ev.nt(hashStr(describe(c))); if (ev.wantSample()) ev.sample(describe(c)); }
     return m;
 }
